@@ -357,8 +357,12 @@ def evalf(t, env, _cache=None):
             v = evalf(ST.defs[nm], env, _cache)
         elif nm in ST.roots:
             p, q, base = ST.roots[nm]
-            b = evalf(base, env, _cache)
-            v = b ** (p / q) if b >= 0 else float("nan")
+            if p == "fn":
+                arg = evalf(base, env, _cache)
+                v = {"LOG1P": math.log1p, "LOG": math.log}[q](arg)
+            else:
+                b = evalf(base, env, _cache)
+                v = b ** (p / q) if b >= 0 else float("nan")
         else:
             raise KeyError("no value for %s" % nm)
     elif z3.is_true(t):
